@@ -74,6 +74,7 @@ impl<R: Read + Seek> ReadBox<&mut R> for MinfBox {
                     "minf box contains a box with a larger size than it",
                 ));
             }
+            check_child_size(s)?;
 
             match name {
                 BoxType::VmhdBox => {
